@@ -45,6 +45,11 @@ pub fn parse_sig(t: &J) -> Signature {
     Signature::try_from(sig_string(t).as_str()).expect("abstract type must have a valid signature")
 }
 
+/// Like `parse_sig`, for types whose signature may legitimately be refused (beyond the nesting limits).
+pub fn try_parse_sig(t: &J) -> Result<Signature, BuildError> {
+    Signature::try_from(sig_string(t).as_str()).map_err(|e| BuildError(format!("signature refused: {e}")))
+}
+
 /// Abstract type of a parsed zvariant signature (single complete type).
 pub fn type_of_sig(s: &Signature) -> J {
     match s {
@@ -137,8 +142,8 @@ pub fn build_value(t: &J, v: &J, pool: &mut FdPool) -> Result<Value<'static>, Bu
         "a" => {
             let et = &t["e"];
             if k(et) == "e" {
-                let ks = parse_sig(&et["key"]);
-                let vs = parse_sig(&et["val"]);
+                let ks = try_parse_sig(&et["key"])?;
+                let vs = try_parse_sig(&et["val"])?;
                 let mut d = Dict::new(&ks, &vs);
                 for ent in v["a"].as_array().unwrap() {
                     let kv = build_value(&et["key"], &ent["r"][0], pool)?;
@@ -147,7 +152,7 @@ pub fn build_value(t: &J, v: &J, pool: &mut FdPool) -> Result<Value<'static>, Bu
                 }
                 Value::Dict(d)
             } else {
-                let es = parse_sig(et);
+                let es = try_parse_sig(et)?;
                 let mut a = Array::new(&es);
                 for el in v["a"].as_array().unwrap() {
                     a.append(build_value(et, el, pool)?)
@@ -172,7 +177,7 @@ pub fn build_value(t: &J, v: &J, pool: &mut FdPool) -> Result<Value<'static>, Bu
         "m" => {
             let inner = v["m"].as_array().unwrap();
             if inner.is_empty() {
-                Value::Maybe(zvariant::Maybe::nothing(&parse_sig(&t["e"])))
+                Value::Maybe(zvariant::Maybe::nothing(&try_parse_sig(&t["e"])?))
             } else {
                 Value::Maybe(zvariant::Maybe::just(build_value(&t["e"], &inner[0], pool)?))
             }
